@@ -172,3 +172,50 @@ Proof.
         apply app_inv_head in P. auto.
   - injection H as <- <- <-. exists []. rewrite app_nil_r. splits; auto; [eexists; reflexivity|discriminate].
 Qed.
+
+(* ---------- varint prefix from ANY source ---------- *)
+From Ufw Require Import Proof.VarintLemmas.
+
+(* whatever the driver does, a successful varint read consumed exactly the octets the list decoder reads *)
+Lemma from_source_any fuel : forall s i acc u c s', vi_from_source_loop fuel s i acc = (SOk u c, s') ->
+  exists consumed, s_stream s = consumed ++ s_stream s' /\ N.of_nat (length consumed) = c - i /\ i < c /\
+    forall tail, dec_list fuel (consumed ++ tail) i acc = VOk u c.
+Proof.
+  induction fuel as [|f IH]; intros s i acc u c s' H; [discriminate|]. cbn [vi_from_source_loop] in H.
+  destruct (source_get_octet s) as [[r d] s1] eqn:G.
+  destruct (get_octet_measure _ _ _ _ G) as (P & M & _).
+  destruct r as [k|e]; [|discriminate]. destruct d as [|x t]; [discriminate|].
+  destruct (M k eq_refl) as [_ Hl]. destruct t; [|cbn in Hl; lia]. cbn [app] in P.
+  destruct (N.land x 128 =? 0) eqn:Ex.
+  - injection H as <- <- <-. exists [x]. rewrite <- P. splits; [reflexivity|cbn; lia|lia|].
+    intros tail. cbn [app dec_list]. rewrite Ex. reflexivity.
+  - destruct (IH _ _ _ _ _ _ H) as (cons & P2 & L2 & Hic & D2).
+    exists (x :: cons). rewrite <- P, P2. splits; [reflexivity|cbn [length]; lia|lia|].
+    intros tail. cbn [app dec_list]. rewrite Ex. apply D2.
+Qed.
+
+Theorem memory_from_source_var_any s size n payload r c d s' :
+  n < 2 ^ 64 -> N.of_nat (length payload) = n -> s_stream s = vi_encode n ++ payload ++ r ->
+  lenp_memory_from_source LVar s size = Some (DOk c, d, s') ->
+  c = n /\ d = payload /\ s_stream s' = r /\ n <= size.
+Proof.
+  intros Hn Hl Hs H. unfold lenp_memory_from_source, decode_prefix, vi_from_source in H.
+  change (N.to_nat (vk_max KU64)) with 10%nat in H.
+  destruct (vi_from_source_loop 10 s 0 0) as [res s1] eqn:E.
+  destruct res as [u cnt| |e]; try discriminate.
+  destruct (from_source_any _ _ _ _ _ _ _ E) as (cons & P & L & _ & D).
+  pose proof (decode_list_roundtrip n (payload ++ r) 10 Hn ltac:(lia)) as R.
+  (* the consumed octets and the encoding are both prefixes of the stream and decode alike *)
+  assert (Hc : cons = vi_encode n /\ u = n).
+  { rewrite Hs in P.
+    pose proof (D (s_stream s1)) as D1. rewrite <- P in D1. rewrite R in D1. injection D1 as <- <-.
+    split; [|reflexivity].
+    rewrite N.sub_0_r, <- encode_length in L. apply Nat2N.inj in L.
+    destruct (app_inv_len _ _ _ _ P (eq_sym L)) as [E1 _]. symmetry. exact E1. }
+  destruct Hc as [-> ->]. rewrite Hs in P. apply app_inv_head in P.
+  destruct (N.ltb_spec size n); [discriminate|].
+  destruct (get_chunk_exact _ _ _ _ _ H) as (P2 & L2 & _).
+  destruct (L2 c eq_refl) as (-> & Ld2 & Hd2).
+  rewrite <- P in Hd2. rewrite firstn_app_len in Hd2 by lia.
+  rewrite <- P, Hd2 in P2. apply app_inv_head in P2. auto.
+Qed.
